@@ -905,7 +905,7 @@ def run(ctx):
                           "returned_policy_differs_from_labelled_greedy", "untouched_labelled_states",
                           "recomputed_greedy_differs_from_recorded_action", "regression_cases", "replay_skipped_long", "chain_steps", "chain_later_steps", "soft_unfinished", "exact_ties_distinct_successors", "margin_below_1e-9_of_values", "margin_below_1e-5_of_values", "n_equals_nA", "none_action_returned_at_labelled_state", "single_action_everywhere", "trial_steps_over_1000", "max_states",
                           "absorbing_initial_mass", "zero_prob_initial_entry", "converged_attr_missing",
-                          "absorbing_untouched_reads_heuristic", "prediction_near_margin", "log_overflow",
+                          "absorbing_untouched_reads_heuristic", "prediction_near_margin", "prediction_float_tie_drift", "replay_float_noise_drift", "log_overflow",
                           "trials_total", "checks_failed_then_updated"]}
     feats, kinds, margins, distinct, variants = {}, {}, {}, set(), {}
     # exact replay cost: rationals grow with every update; Coq's gcd is quadratic in their length.
@@ -1039,7 +1039,11 @@ def run(ctx):
             cnt["replay_ops"] += len(machine_ops(res["ops"]))
             names = ["guards", "written-values", "final-labels", "final-values", "recorded-actions"]
             failed = [nm for nm, okv in zip(names, v) if not okv]
-            if failed:
+            if failed and (near_margin(p, res) or float_tie_ambiguous(p, case, res)):
+                # tie-breaking / labelling decided inside float noise: unspecified observable, the history diverges
+                # legitimately; the certificate and the oracle (same case) still gate
+                cnt["replay_float_noise_drift"] += 1
+            elif failed:
                 diag = None
                 if len(ctx.violations) < 40:      # first failing operation (index, 1 = guard / 2 = value), for the replay file
                     mops = machine_ops(res["ops"])
@@ -1059,6 +1063,8 @@ def run(ctx):
                 # a residual within float distance of the margin makes the comparison ambiguous
                 if near_margin(p, res):
                     cnt["prediction_near_margin"] += 1
+                elif float_tie_ambiguous(p, case, res):
+                    cnt["prediction_float_tie_drift"] += 1
                 else:
                     ctx.violation("C04:check-solved-differs-from-mirror",
                                   dict(base, first_bad_call=v.index(False), ops=res["ops"][:400],
@@ -1080,6 +1086,64 @@ def run(ctx):
         "samples": [{"case": cases[0], "impl": {k: impl[0].get(k) for k in ("V", "solved", "touched", "greedy", "initial_value", "trials", "ops")}}] if cases else [],
         "heuristic_kinds": kinds, "margins": margins, "input_features": feats, "variants": variants, **cnt,
     })
+
+
+def float_tie_ambiguous(p, case, res):
+    """Is the greedy choice an unspecified observable somewhere in this run?  True when, for the values the
+    implementation actually held (its own floats, read off the log), some state has two near-maximal actions
+    with different rows whose look-aheads are (a) different but closer than the float noise 1e-13*scale, or
+    (b) exactly equal as rationals but different when accumulated in floating point in the code's own order
+    (thirds, tenths, heuristics rounded to doubles).  Then exact arithmetic and floats may legitimately break
+    the tie differently and the whole trial history diverges: the log is judged by the certificate and the
+    oracle only (drift).  Exact ties that are exact in floats too (integers, dyadics, duplicated rows) are NOT
+    ambiguous: there the first action in res.action_orders must win."""
+    mc = case["mdp"]
+    g = float(p.g)
+    rows = {}
+    for s in range(p.n):
+        for a in range(p.nA):
+            if p.av[s][a]:
+                rows[(s, a)] = [(ns, float(F(pr)), float(F(mc["reward"].get("%d,%d,%d" % (s, a, ns), "0"))))
+                                for ns, pr in mc["trans"]["%d,%d" % (s, a)]]
+
+    erows = {k: sorted((ns, F(pr), F(mc["reward"].get("%d,%d,%d" % (k[0], k[1], ns), "0")) if F(pr) != 0 else F(0))
+                       for ns, pr in mc["trans"]["%d,%d" % k]) for k in rows}
+
+    def qfloat(V, s, a):
+        qv = 0
+        for ns, pr, r in rows[(s, a)]:
+            fut = 0 if p.absf[ns] else V[ns]
+            qv += pr * (r + g * fut)
+        return qv
+
+    def ambiguous(V):
+        Ve = [F(x) for x in V]
+        for s in range(p.n):
+            if p.absf[s]:
+                continue
+            acts = [a for a in range(p.nA) if p.av[s][a]]
+            if len(acts) < 2:
+                continue
+            qe = {a: lookahead(p.P, p.R, p.absf, p.g, Ve, s, a) for a in acts}
+            best = max(qe.values())
+            top = [a for a in acts if best - qe[a] <= p.tiny]
+            for i, a in enumerate(top):
+                for b in top[i + 1:]:
+                    if erows[(s, a)] == erows[(s, b)]:       # duplicated action (exactly): same floats, no ambiguity
+                        continue
+                    if qe[a] != qe[b] or qfloat(V, s, a) != qfloat(V, s, b):
+                        return True
+        return False
+
+    V = [float(x) for x in p.h]
+    if ambiguous(V):
+        return True
+    for op in res["ops"]:
+        if op[0] == "U":
+            V[op[1]] = float(vlib.frac(op[2]))
+            if ambiguous(V):
+                return True
+    return False
 
 
 def near_margin(p, res):
